@@ -576,6 +576,10 @@ func init() {
 	h["os.Environ"] = func(fr *frame, args []value) value { return valStrings([]string{"HOME=/h"}) }
 	h["os.LookupEnv"] = func(fr *frame, args []value) value { return tuple{"", false} }
 	h["os.Getenv"] = func(fr *frame, args []value) value { return "" }
+	h["os.Stat"] = func(fr *frame, args []value) value {
+		fr.i.R.inconclusive("os.Stat reached without a harness stub (verifBind)")
+		return nil
+	}
 	h["os.Getpid"] = func(fr *frame, args []value) value { return 4242 }
 	h["github.com/f1bonacc1/process-compose/src/pclog.Name2Color"] = func(fr *frame, args []value) value {
 		return nativeFn(func(fr *frame, a []value) value { return "" })
